@@ -1,0 +1,45 @@
+//go:build verif
+
+package daemon
+
+import (
+	"os"
+	"time"
+)
+
+// Hooks for the verification harness (/verif). Only built with -tags verif.
+
+// VerifPause, when set, is called at the protocol steps of Activate and Serve with the name of the
+// step, the socket path and a step-specific integer (the daemonStatus for the detect steps).
+// It may block: that is how the harness gates the interleaving of shells and daemons.
+var VerifPause func(point, sockpath string, arg int)
+
+func verifPause(point, sockpath string, arg int) {
+	if f := VerifPause; f != nil {
+		f(point, sockpath, arg)
+	}
+}
+
+// VerifSetStartProcess overrides how Activate starts the daemon process; returns a restore function.
+func VerifSetStartProcess(f func(name string, argv []string, attr *os.ProcAttr) error) func() {
+	old := startProcess
+	startProcess = f
+	return func() { startProcess = old }
+}
+
+// VerifSetSpawnTimeout overrides how long Activate waits for a spawned daemon; returns a restore function.
+func VerifSetSpawnTimeout(total, perLoop time.Duration) func() {
+	oldT, oldP := daemonSpawnTimeout, daemonSpawnWaitPerLoop
+	daemonSpawnTimeout, daemonSpawnWaitPerLoop = total, perLoop
+	return func() { daemonSpawnTimeout, daemonSpawnWaitPerLoop = oldT, oldP }
+}
+
+// Status codes passed with the detect steps.
+const (
+	VerifDaemonOK             = int(daemonOK)
+	VerifSockfileMissing      = int(sockfileMissing)
+	VerifSockfileOtherError   = int(sockfileOtherError)
+	VerifConnectionRefused    = int(connectionRefused)
+	VerifConnectionOtherError = int(connectionOtherError)
+	VerifDaemonOutdated       = int(daemonOutdated)
+)
